@@ -211,7 +211,7 @@ def sweep(shard, nshards):
                 if done_templates == 0:
                     rid += 1
                     rows.append({"id": rid, "ns": ns, "name": name, "template": tname, "argpos": -1, "mode": "-", "kind": "unknown", "varies": False,
-                                 "outcome": "nonfloat", "agrees": True, "stable": False, "guard": False})
+                                 "outcome": "nonfloat", "agrees": True, "stable": False, "guard": False, "nd": False})
                     done_templates += 1
                 continue
             done_templates += 1
@@ -255,7 +255,7 @@ def sweep(shard, nshards):
                             rows.append({"id": rid, "ns": ns, "name": name, "template": tname, "argpos": -2, "mode": mode, "kind": "unknown",
                                          "varies": bool(varies), "outcome": oc.split(":")[0], "exc": oc.split(":")[1] if ":" in oc else "",
                                          "agrees": bool(ag), "stable": bool(stable) and name not in ("cholesky", "eigh", "eigvalsh", "eig", "eigvals"),
-                                         "guard": False})
+                                         "guard": False, "nd": False})
                     except Exception:
                         pass
             for pos in positions:
@@ -312,7 +312,7 @@ def sweep(shard, nshards):
                     rows.append({"id": rid, "ns": ns, "name": name, "template": tname, "argpos": pos, "mode": mode,
                                  "kind": kind_of(raw, mode) if raw is not None else "unknown", "varies": bool(varies),
                                  "outcome": outcome.split(":")[0], "exc": outcome.split(":")[1] if ":" in outcome else "",
-                                 "agrees": bool(agrees), "stable": bool(stable), "guard": False})
+                                 "agrees": bool(agrees), "stable": bool(stable), "guard": False, "nd": False})
     return rows
 
 
@@ -357,12 +357,82 @@ def guards():
         except Exception as ex:     # noqa
             outcome, exc = "raised", type(ex).__name__
         rows.append({"id": 100000 + i, "ns": "guard", "name": name, "template": "-", "argpos": 0, "mode": "vjp", "kind": "unknown", "varies": True,
-                     "outcome": outcome, "exc": exc, "agrees": True, "stable": False, "guard": True})
+                     "outcome": outcome, "exc": exc, "agrees": True, "stable": False, "guard": True, "nd": False})
+    return rows
+
+
+def nondiff_rows():
+    """C14: every function autograd registers as non-differentiable (plus the shape/type queries), called on a traced value in both
+    modes: the value is plain and equals NumPy's, and derivative flow is blocked (d/dx sum(x * f(x)) = f(x))."""
+    from autograd.numpy.numpy_vjps import nograd_functions
+    import autograd.builtins as ab
+    fns = [(getattr(f, "__name__", str(f)), f) for f in nograd_functions]
+    fns += [("ndim", np.ndim), ("shape", np.shape), ("iscomplexobj", np.iscomplexobj), ("result_type", np.result_type),
+            ("isinstance", lambda v: ab.isinstance(v, onp.ndarray)), ("type", lambda v: ab.type(v) is onp.ndarray)]
+    x3 = gen((3,)) * 1.7 + 0.25
+    m23 = gen((2, 3), k=4) * 1.7 + 0.25
+    templates = [("A", lambda f, v: f(v), x3), ("M", lambda f, v: f(v), m23), ("AB", lambda f, v: f(v, B3), x3), ("Aaxis", lambda f, v: f(v, axis=0), m23),
+                 ("Aint", lambda f, v: f(v, 1), x3), ("BA", lambda f, v: f(B3, v), x3)]
+    rows = []
+    for i, (name, fn) in enumerate(fns):
+        done = 0
+        for tname, call, x in templates:
+            if done >= 2:
+                break
+            try:
+                want = call(fn, x)        # plain NumPy through the unboxed branch
+            except Exception:
+                continue
+            done += 1
+            for mode in ("vjp", "jvp"):
+                seen = {}
+
+                def f(v):
+                    r = call(fn, v)
+                    seen["r"] = r
+                    rr = onp.asarray(r)
+                    if rr.dtype.kind in "fiub" and (rr.shape == () or rr.shape == onp.shape(v)):
+                        return np.sum(v * r)
+                    return np.sum(v)
+                row = {"id": 200000 + 20 * i + len(rows) % 20, "ns": "nondiff", "name": name, "template": tname, "argpos": 0, "mode": mode, "kind": "unknown",
+                       "varies": False, "outcome": "zero", "exc": "", "agrees": True, "stable": False, "guard": False, "nd": True,
+                       "plain_eq": False, "unboxed": False, "blocks": False}
+                try:
+                    if mode == "vjp":
+                        g = onp.asarray(make_vjp(f)(x)[0](1.0))
+                    else:
+                        g = None
+                        make_jvp(f)(x)(onp.ones_like(x))
+                    r = seen.get("r")
+
+                    def boxed(q):
+                        return isbox(q) or (isinstance(q, (tuple, list)) and any(boxed(e) for e in q))
+                    row["unboxed"] = not boxed(r)
+                    if isinstance(want, (tuple, list)):
+                        row["plain_eq"] = bool(len(r) == len(want) and all(onp.array_equal(onp.asarray(a), onp.asarray(b)) for a, b in zip(r, want)))
+                    else:
+                        row["plain_eq"] = bool(type(r) is type(want) and onp.array_equal(onp.asarray(r), onp.asarray(want), equal_nan=True)) \
+                            if not isinstance(want, onp.dtype) else r == want
+                    rr = onp.asarray(want) if not isinstance(want, (tuple, list, onp.dtype, type)) else None
+                    if mode == "vjp" and rr is not None and rr.dtype.kind in "fiub" and (rr.shape == () or rr.shape == onp.shape(x)):
+                        row["blocks"] = bool(onp.allclose(g, onp.broadcast_to(rr.astype(float), onp.shape(x))))
+                    else:
+                        row["blocks"] = True
+                except Exception as ex:     # noqa
+                    row["exc"] = type(ex).__name__ + ": " + str(ex)[:80]
+                rows.append(row)
+    for k, r in enumerate(rows):
+        r["id"] = 200000 + k
     return rows
 
 
 def main():
     sh = json.load(open(sys.argv[1]))[0]
+    if sh.get("nondiff"):
+        with open(sys.argv[2], "w") as f:
+            for r in nondiff_rows():
+                f.write(json.dumps(r) + "\n")
+        return
     rows = sweep(sh["shard"], sh["nshards"])
     if sh["shard"] == 0:
         rows += guards()
